@@ -12,7 +12,10 @@ func (e *Engine) opBatch(c *cursor) *Violation {
 	spec := e.Slots[slot]
 	op := &COp{Kind: "batch", Slot: slot, Cached: cached, Rel: -1}
 	op.Variant = batchVariants[c.n(len(batchVariants))]
-	op.Q = c.n(3) == 0 && op.Variant != "Batch.RemoveEntities"
+	if e.forceQ && op.Variant == "Batch.RemoveEntities" {
+		op.Variant = "Batch.Exchange"
+	}
+	op.Q = (c.n(3) == 0 || e.forceQ) && op.Variant != "Batch.RemoveEntities"
 	if op.Q && len(e.Open) >= e.P.MaxOpen && !e.locked() {
 		op.Q = false
 	}
@@ -273,7 +276,7 @@ func (e *Engine) opFNew(c *cursor) *Violation {
 		return nil
 	}
 	reg := e.regTypes()
-	spec := genFilter(c, reg, 2, true, func() ecs.Entity {
+	spec := genFilter(c, reg, 2, e.P.RelFilterPct, func() ecs.Entity {
 		// relation-filter target: alive, zero, or a dead one
 		k := c.n(100)
 		if k < 15 {
@@ -310,7 +313,16 @@ func (e *Engine) opFReg(c *cursor) *Violation {
 		e.St.Skipped++
 		return nil
 	}
-	op := &COp{Kind: "freg", Variant: "Register", Slot: cands[k%len(cands)], Rel: -1}
+	slot := cands[k%len(cands)]
+	if k%3 != 0 {
+		for i := range cands {
+			if s := cands[(k+i)%len(cands)]; e.Slots[s].Kind == "relation" {
+				slot = s
+				break
+			}
+		}
+	}
+	op := &COp{Kind: "freg", Variant: "Register", Slot: slot, Rel: -1}
 	_, ok, v := e.issue(op, "")
 	if v != nil {
 		if v.Class == "unexpected-panic" {
